@@ -483,6 +483,17 @@ func (ex *Exec) invokeSummary(st *State, m *types.Func, args []Val, resT types.T
 		}
 	case "Write":
 		if len(args) == 1 {
+			if sl, ok := args[0].(*SliceV); ok && !sl.Unk && ex.WriterContract {
+				// io.Writer contract, split eagerly: either everything was accepted (n = len, nil) or an error is returned
+				okSt, badSt := st, st.Clone()
+				n := badSt.freshInt("n", 64, true)
+				_, hi := badSt.Range(sl.Len)
+				badSt.refineSym(n.T.Syms[0], 0, hi)
+				return []callRes{
+					{st: okSt, ret: &TupleV{Vs: []Val{sl.Len, nilErr()}}},
+					{st: badSt, ret: &TupleV{Vs: []Val{n, &IfaceV{Unk: true, NonNil: true}}}},
+				}, true
+			}
 			if sl, ok := args[0].(*SliceV); ok && !sl.Unk {
 				n := st.freshInt("n", 64, true)
 				_, hi := st.Range(sl.Len)
